@@ -80,6 +80,59 @@ def atom_zero(a, what):
     return None
 
 
+EMPTY_CTORS = ("new", "default", "with_capacity", "with_hasher", "with_capacity_and_hasher", "empty")
+
+
+def _only_empty_ctors(p, core, depth=0):
+    """every call on the path is an empty-collection / default constructor (local ones are inspected recursively): nothing is
+    read and no table is filled"""
+    for c in p.calls():
+        last = c[2].split("::")[-1]
+        if last == "from_elem" and not any(y[0] == "call" and not guards._pure(y[1]) for x in c[5] for y in mir.walk_expr(x)):
+            continue          # vec![const; n] with n computed from the arguments alone: nothing from the input
+        if guards._pure(c[2]):
+            continue
+        if last not in EMPTY_CTORS:
+            return False
+        cb = core.bodies.get(c[4])
+        if cb is not None and depth < 3:
+            for q in walk.walk(cb, core, max_paths=200):
+                if q.outcome[0] == "return" and not _only_empty_ctors(q, core, depth + 1):
+                    return False
+    return True
+
+
+VEC_MAKERS = ("Vec<T>::new", "Vec<T>::with_capacity", "Iterator::collect", "from_elem", "[T]::into_vec", "<Vec<T> as Default>::default",
+              "box_assume_init_into_vec_unsafe")
+
+
+def _vec_terms(t):
+    return [x for x in mir.walk_expr(t) if x[0] == "call" and (x[1] in VEC_MAKERS or x[1].endswith("::from_elem"))]
+
+
+def _empty_vec(x):
+    """the vector-producing call `x` certainly yields an empty vector"""
+    if x[1] in ("Vec<T>::new", "<Vec<T> as Default>::default", "Vec<T>::with_capacity"):
+        return True
+    if x[1].endswith("from_elem") and len(x[3]) >= 2:
+        return guards.rng(x[3][1]) == (0, 0)
+    if x[1] == "Iterator::collect" and x[3]:
+        for y in mir.walk_expr(x[3][0]):
+            if y[0] == "call" and y[1] == "Iterator::take" and len(y[3]) == 2 and guards.rng(y[3][1]) == (0, 0):
+                return True
+        n = guards._iter_count(x[3][0])
+        return n == 0
+    return False
+
+
+def _has_empty_vec(t):
+    return any(_empty_vec(x) for x in _vec_terms(t))
+
+
+def _has_filled_vec(t):
+    return any(not _empty_vec(x) for x in _vec_terms(t))
+
+
 def _minus_one(t, what):
     """`t` is x - 1 for an x whose text mentions `what`: x - 1, x.checked_sub(1) (also its `?` payload), wrapping/saturating"""
     t = strip_refs(t)
@@ -751,11 +804,14 @@ def step_codes(an, rep):
                        "FIELD_REMOVED=-2 for the same variants; chunk size is a VarI32; position via FieldPosition; name via "
                        "DeduplicatedString")
     core = an.core()
+    # the three codes are fixed by the format (Scala desert): they are the oracle, whatever the private const items are called
+    FORMAT_CODES = {"UNKNOWN": 0, "FIELD_MADE_OPTIONAL": -1, "FIELD_REMOVED": -2}
     consts = {c["path"].split("::")[-1]: c["val"] for c in core.items["consts"]}
-    R.check(consts.get("UNKNOWN") == "0" and consts.get("FIELD_MADE_OPTIONAL") == "-1" and consts.get("FIELD_REMOVED") == "-2",
-            "evolution consts", "values", "step code constants are %s, the format fixes 0 / -1 / -2" %
-            {k: consts.get(k) for k in ("UNKNOWN", "FIELD_MADE_OPTIONAL", "FIELD_REMOVED")},
-            sample={"codes": {k: consts.get(k) for k in ("UNKNOWN", "FIELD_MADE_OPTIONAL", "FIELD_REMOVED")}})
+    for k, v in FORMAT_CODES.items():
+        if consts.get(k) is not None:
+            R.check(consts[k] == str(v), "evolution consts", "value of " + k, "step code constant %s is %s, the format fixes %d" %
+                    (k, consts[k], v), sample={"const": k, "value": v})
+    consts = {k: str(v) for k, v in FORMAT_CODES.items()}
     w = core.find("<SerializedEvolutionStep as BinarySerializer>::serialize")
     r = core.find("<SerializedEvolutionStep as BinaryDeserializer>::deserialize")
     if not w or not r:
@@ -851,12 +907,11 @@ def field_position(an, rep):
             z = None
             for a in p.atoms():
                 c = a[1]
-                if c[0] == "bin" and c[1] in ("Eq", "Ne") and "chunk" in show(c) and guards.rng(c[3]) == (0, 0):
-                    tv = guards.truth(a[2])
-                    z = tv if c[1] == "Eq" else not tv
+                if c[0] != "discr" and atom_zero(a, "chunk") is not None:
+                    z = atom_zero(a, "chunk")
             s_ = show(p.outcome[1])
             if z is True:
-                R.check("position" in s_ and ("wrapping_neg" in s_ or "Neg" in s_) and "as u8" in s_, b.key, "chunk 0",
+                R.check(_negation_of(p.outcome[1], "position") and b.locals[0]["ty"].get("s") == "u8", b.key, "chunk 0",
                         "chunk 0 must encode -(position): %s" % s_, None, sample={"to_byte chunk==0": s_})
             elif z is False:
                 R.check(self_field(p.outcome[1], "chunk"), b.key, "chunk > 0", "chunk > 0 must encode the chunk: %s" % s_)
@@ -878,11 +933,18 @@ def field_position(an, rep):
                     tv = guards.truth(a[2])
                     neg = tv if c[1] == "Lt" else not tv
             mk = [c for c in called(p, "FieldPosition::new")]
-            if len(mk) != 1 or neg is None:
+            pair = (mk[0][5][0], mk[0][5][1]) if len(mk) == 1 else None
+            if pair is None:
+                # struct literal instead of the constructor function: FieldPosition { chunk, position }
+                w_ = strip_refs(what)
+                inner = strip_refs(w_[4][0]) if w_[0] == "agg" and w_[3] == "Ok" and w_[4] else None
+                if inner is not None and inner[0] == "agg" and (inner[2] or "").endswith("::FieldPosition") and len(inner[4]) == 2:
+                    pair = (inner[4][0], inner[4][1])
+            if pair is None or neg is None:
                 R.fail(b.key, "row ?", "unexpected shape")
                 continue
             rows += 1
-            a0, a1 = mk[0][5][0], mk[0][5][1]
+            a0, a1 = pair
             if neg:
                 R.check(guards.rng(a0) == (0, 0) and ("unsigned_abs" in show(a1) or "Neg" in show(a1) or "wrapping_neg" in show(a1))
                         and "read_i8" in show(a1), b.key, "negative byte", "negative byte must decode to (0, |byte|): (%s, %s)" %
@@ -1303,7 +1365,7 @@ def record_writer(an, rep):
             ret = strip_refs(p.outcome[1])
             if fn.endswith("new_v0"):
                 bufs = [f for n, f in zip(range(99), ret[4])] if ret[0] == "agg" else []
-                R.check("Vec<T>::new" in show(ret), fn, "no buffers", "new_v0 must start with no chunk buffers")
+                R.check(_has_empty_vec(ret) and not _has_filled_vec(ret), fn, "no buffers", "new_v0 must start with no chunk buffers")
     b = core.find("AdtSerializer<Output>::write_field")
     if b:
         rows = set()
@@ -1454,9 +1516,8 @@ def header_reader(an, rep):
     if v0:
         for p in walk.walk(v0, core):
             if p.outcome[0] == "return" and p.returns_ok():
-                s_ = show(p.outcome[1])
-                R.check("BTreeMap<K, V>::new" in s_ and "Vec<T>::new" in s_ and not called(p, "BinaryInput::read_var_i32"),
-                        v0.key, "v0", "new_v0 must not read anything and start with empty tables", None, sample={"new_v0": "no header"})
+                R.check(_only_empty_ctors(p, core), v0.key, "v0", "new_v0 must not read anything and start with empty tables",
+                        None, sample={"new_v0": "no header"})
     else:
         R.anchor_missing("AdtDeserializer::new_v0")
     return R
